@@ -180,6 +180,54 @@ def history(o1: int, o2: int, o3: int, o4: int, o5: int, x: int) -> bool:
     return verdict(ok, len(expected_runs["a"]) + len(expected_runs["b"]) > 0)
 
 
+NESTED = '''
+runs = []
+@service("pyscript.s2")
+def top(**kw):
+    global runs
+    runs += [("top", kw.get("x"))]
+
+@event_trigger("remake")
+def maker(drop=False, **kw):
+    @service("pyscript.s2")
+    def inner(**kw2):
+        global runs
+        runs += [("inner", kw2.get("x"))]
+    global keep, top
+    keep = inner
+    if drop:
+        top = None
+'''
+
+
+def nested_redefine(x1: int, x2: int, drop: bool) -> bool:
+    """
+    post: _
+    """
+    # a service redefined from inside a running function of the same file: the file is not refused its own name, calls reach the newest definition
+    from vlib.world import mkworld
+    from vlib.base import Function
+    with notrace():
+        w = mkworld(P("legacy"))
+    try:
+        with notrace():
+            g = w.load("file.x", NESTED)
+        w.call_service("pyscript", "s2", {"x": x1}, blocking=True)
+        w.fire("remake", {"drop": drop})
+        with notrace():
+            import gc; gc.collect(); w.settle()
+        has = w.hass.services.has_service("pyscript", "s2"); owner = Function.service2global_ctx.get("pyscript.s2")
+        if has: w.call_service("pyscript", "s2", {"x": x2}, blocking=True)
+        runs = [tuple(r) for r in g.global_sym_table["runs"]]
+    finally:
+        w.close()
+    ok = has and owner == "file.x" and len(runs) == 2 and runs[0][0] == "top" and runs[0][1] == x1 and runs[1][0] == "inner" and runs[1][1] == x2
+    if not symbolic_mode():
+        detail(x=(x1, x2), drop_outer=drop, has_service=has, owner=owner, runs=runs)
+    return verdict(ok, True)
+
+
+
 ALIAS = "runs = []\n@service('pyscript.s1', 'pyscript.s2')\ndef f(**kw):\n    global runs\n    runs += [kw.get('x')]\n"
 
 
@@ -320,6 +368,10 @@ def obligations(tier):
         o.append(Obl(f"C12.alias_args.{'legacy' if legacy else 'default'}", __name__, "alias_args", {"legacy": legacy}, timeout=300,
                      desc="@service('pyscript.s1', 'pyscript.s2'): both names are registered and call the function", sym="call data symbolic", real_loop=False, twin=False,
                      known="" if legacy else "C12.new.alias_args", classifier="" if legacy else "classify_alias"))
+    for legacy in (False, True):
+        o.append(Obl(f"C12.nested_redefine.{'legacy' if legacy else 'default'}", __name__, "nested_redefine", {"legacy": legacy}, timeout=300,
+                     desc="a @service redefined under the same name from inside a running trigger function of the same file stays registered, owned by the file, and calls reach the new definition",
+                     sym="call data before and after, whether the outer definition is dropped - symbolic", real_loop=True, twin=False))
     o.append(Obl("C12.outgoing", __name__, "outgoing", {}, timeout=900,
                  desc="service.call(...) and DOMAIN.service(...): the registry receives exactly the remaining keyword parameters; blocking / return_response are control arguments only when bool, "
                       "context only when a Context; return_response implies blocking; a response-only service gets return_response; otherwise the run's own context (child of the trigger's) is attached",
